@@ -13,7 +13,7 @@ enum OpCode : uint16_t {
   // element -> ...
   OP_INVERSE = 0, OP_LOG, OP_COMPOSE, OP_BETWEEN, OP_RPLUS, OP_LPLUS, OP_PLUS,
   OP_RMINUS, OP_LMINUS, OP_MINUS, OP_ACT, OP_ADJ, OP_MUL, OP_ADD, OP_SUB,
-  OP_ISAPPROX, OP_EQ, OP_TRANSFORM, OP_ROTATION, OP_CASTRT, OP_COEFFS, OP_LIFT, OP_DATAPTR, OP_ACCESSORS,
+  OP_ISAPPROX, OP_EQ, OP_TRANSFORM, OP_ROTATION, OP_CASTRT, OP_COEFFS, OP_LIFT, OP_DATAPTR, OP_ACCESSORS, OP_CONSTRUCT,
   // tangent -> ...
   OP_EXP = 30, OP_HAT, OP_RJAC, OP_LJAC, OP_RJACINV, OP_LJACINV, OP_SMALLADJ,
   OP_INNER, OP_WNORM, OP_SQWNORM, OP_BRACKET, OP_TPLUS, OP_TMINUS,
@@ -54,7 +54,8 @@ enum : uint8_t {
   V_BLOCK1 = 1,   // bind output 1 to a block of a larger matrix
   V_BLOCK2 = 2,   // bind output 2 to a block of a larger matrix
   V_ALT = 4,      // alternative spelling of the same operation (alias / operator form)
-  V_SUB = 8       // reach through internal sub-view (asSO3 / element<i>) where available
+  V_SUB = 8,      // reach through internal sub-view (asSO3 / element<i>) where available
+  V_FRESH = 16    // bind view operands to temporary Map objects instead of the state's persistent views
 };
 
 // alias sub-operations for OP_M_ALIAS (in OpRec::c)
